@@ -146,7 +146,7 @@ def pre_twu(shard, *v):
 
 def obligations(tier):
     q = tier == "quick"
-    steps = 7 if q else 9
+    steps = 7 if q else 8
     obls = []
     for native in (False, True):
         for awaiting in (True, False):
